@@ -1,9 +1,289 @@
-"""Extra phases of individual checks: other builds, compiler runs, Miri, fuzzing."""
-from common import build_main, build_wrap, log
+"""Extra phases of individual checks: other builds, compiler runs, Miri, fuzzing.
+
+Each phase returns a dict with any of: violations, inconclusive, evaluations, digests,
+samples, counters, maxes, coverage."""
+import itertools
+import json
+import os
+import re
+import shutil
+import subprocess
+import time
+from concurrent.futures import ThreadPoolExecutor
+
+from common import (FLAGS_CHECKED, HARNESS, NSHARDS, TARGET, VERIF, WORK, base_env, build_main, build_wrap,
+                    cargo_build, log, merge_reports, run_shards, workdir)
+
+REPO = "/repo"
 
 
+def _prefixed(merged, prefix):
+    return {
+        "violations": merged["violations"],
+        "inconclusive": merged["inconclusive"],
+        "evaluations": merged["evaluations"],
+        "digests": merged["digests"],
+        "samples": [f"[{prefix}] {s}" for s in merged["samples"][:6]],
+        "counters": {f"{prefix}:{k}": v for k, v in merged["counters"].items()},
+        "maxes": {f"{prefix}:{k}": v for k, v in merged["maxes"].items()},
+    }
+
+
+# --------------------------------------------------------------------------- C16
+def wrap_c16(pid, tier, seed):
+    """Same workload in a plain release build (wrapping arithmetic): a wrapped counter shows
+    as a runaway loop cut by the step budget instead of as an overflow panic."""
+    binp = build_wrap()
+    if binp is None:
+        return {"inconclusive": ["wrap build (overflow-checks off) failed"]}
+    reports, problems = run_shards(binp, pid, tier, seed, tag="wrap")
+    merged = merge_reports(reports)
+    res = _prefixed(merged, "wrap-build")
+    res["inconclusive"] = list(res["inconclusive"]) + [p["why"] for p in problems]
+    res["coverage"] = {"build": "release, overflow-checks=off, debug-assertions=off, --cfg elf_verif_hooks", "shards": len(reports),
+                       "evaluations": merged["evaluations"]}
+    return res
+
+
+# --------------------------------------------------------------------------- C06
+def declared_features():
+    feats = []
+    in_features = False
+    for line in open(os.path.join(REPO, "Cargo.toml")):
+        s = line.strip()
+        if s.startswith("["):
+            in_features = s == "[features]"
+            continue
+        if in_features and "=" in s and not s.startswith("#"):
+            name = s.split("=", 1)[0].strip()
+            if name != "default":
+                feats.append(name)
+    return feats
+
+
+def _cargo(cmd, env_extra=None, cwd=REPO, timeout=1200):
+    env = base_env()
+    if env_extra:
+        env.update(env_extra)
+    try:
+        r = subprocess.run(cmd, cwd=cwd, env=env, capture_output=True, text=True, timeout=timeout)
+        return r.returncode, r.stderr[-3000:]
+    except subprocess.TimeoutExpired:
+        return -1, "timeout"
+
+
+def features_c06(pid, tier, seed):
+    """Configuration clause: every subset of the declared features compiles; subsets without
+    `std` compile against a sysroot that contains only core (or core+alloc); the allocation
+    walker is repeated in every subset."""
+    feats = declared_features()
+    subsets = []
+    for r in range(len(feats) + 1):
+        for c in itertools.combinations(feats, r):
+            subsets.append(list(c))
+    res = {"violations": [], "inconclusive": [], "counters": {}, "samples": [], "evaluations": 0, "digests": set(), "maxes": {}}
+    cov = {"declared_features": feats, "subsets": [], "nostd_targets": []}
+
+    def closure(s):
+        # std implies alloc per the crate's own feature table (read, not assumed)
+        return sorted(set(s))
+
+    def host_check(s):
+        cmd = ["cargo", "check", "--offline", "--no-default-features", "--lib", "--target-dir", os.path.join(TARGET, "featcheck-" + ("_".join(s) or "none"))]
+        if s:
+            cmd += ["--features", ",".join(s)]
+        return s, _cargo(cmd)
+
+    def nostd_check(s):
+        std_parts = "core,alloc" if "alloc" in s else "core"
+        cmd = ["cargo", "+nightly", "check", "-Zbuild-std=" + std_parts, "--target", "x86_64-unknown-none", "--no-default-features", "--lib",
+               "--target-dir", os.path.join(TARGET, "nostd-" + ("_".join(s) or "none"))]
+        if s:
+            cmd += ["--features", ",".join(s)]
+        return s, std_parts, _cargo(cmd, {"CARGO_NET_OFFLINE": "true"})
+
+    def harness_build(s):
+        hf = ["elf_" + f for f in s]
+        binp = cargo_build("feat-" + ("_".join(s) or "none"), FLAGS_CHECKED, features=hf)
+        return s, binp
+
+    with ThreadPoolExecutor(max_workers=8) as ex:
+        host = list(ex.map(host_check, subsets))
+        nostd = list(ex.map(nostd_check, [s for s in subsets if "std" not in s]))
+        builds = list(ex.map(harness_build, [s for s in subsets if set(s) != set(feats)]))
+
+    for s, (rc, err) in host:
+        name = "+".join(s) or "(none)"
+        cov["subsets"].append({"features": name, "host_check": "ok" if rc == 0 else "FAILED"})
+        res["evaluations"] += 1
+        res["counters"]["config:host-checks"] = res["counters"].get("config:host-checks", 0) + 1
+        if rc != 0:
+            res["violations"].append({"sig": f"config:{name}:does-not-compile", "phase": "features_c06",
+                                      "detail": f"the crate does not compile with features [{name}] (default features off): {err[-1200:]}",
+                                      "stratum": "feature-subsets", "case": 0, "input_hex": ""})
+    for s, parts, (rc, err) in nostd:
+        name = "+".join(s) or "(none)"
+        cov["nostd_targets"].append({"features": name, "sysroot": parts, "target": "x86_64-unknown-none", "check": "ok" if rc == 0 else "FAILED"})
+        res["evaluations"] += 1
+        res["counters"]["config:nostd-sysroot-checks"] = res["counters"].get("config:nostd-sysroot-checks", 0) + 1
+        if rc != 0:
+            if "can't find crate" in err or "unresolved import" in err or "cannot find" in err or "failed to resolve" in err or "error[E" in err:
+                res["violations"].append({"sig": f"config:{name}:needs-more-than-{parts}", "phase": "features_c06",
+                                          "detail": f"with features [{name}] the crate does not build against a sysroot containing only {parts} (x86_64-unknown-none): {err[-1200:]}",
+                                          "stratum": "feature-subsets", "case": 0, "input_hex": ""})
+            else:
+                res["inconclusive"].append(f"no-std check for [{name}] could not run: {err[-400:]}")
+    # the allocation walker in every other feature subset
+    for s, binp in builds:
+        name = "+".join(s) or "(none)"
+        if binp is None:
+            res["inconclusive"].append(f"harness build for feature subset [{name}] failed (crate itself checked separately)")
+            continue
+        reports, problems = run_shards(binp, "C06", "quick" if tier == "quick" else "quick", seed, nshards=4, tag="feat-" + ("_".join(s) or "none"))
+        m = merge_reports(reports)
+        res["violations"].extend([dict(v, sig=v["sig"]) for v in m["violations"]])
+        res["inconclusive"].extend(m["inconclusive"] + [p["why"] for p in problems])
+        res["evaluations"] += m["evaluations"]
+        res["digests"] |= m["digests"]
+        res["counters"][f"config[{name}]:armed-windows"] = m["counters"].get("armed-windows", 0)
+        res["counters"][f"config[{name}]:walker-calls"] = m["counters"].get("walker-calls-under-monitor", 0)
+        for c in cov["subsets"]:
+            if c["features"] == name:
+                c["walker_armed_windows"] = m["counters"].get("armed-windows", 0)
+                c["walker_calls"] = m["counters"].get("walker-calls-under-monitor", 0)
+    res["coverage"] = cov
+    res["samples"] = [f"[config] features {c['features']}: host check {c['host_check']}, walker windows {c.get('walker_armed_windows', 'main run')}" for c in cov["subsets"]]
+    return res
+
+
+# --------------------------------------------------------------------------- Miri
+MIRI_TARGETS = {
+    "i686": "i686-unknown-linux-gnu",
+    "mips": "mips-unknown-linux-gnu",
+    "s390x": "s390x-unknown-linux-gnu",
+}
+
+
+def miri_setup(targets):
+    ok = True
+    for t in targets:
+        env = base_env()
+        r = subprocess.run(["cargo", "+nightly", "miri", "setup", "--target", MIRI_TARGETS[t]], cwd=HARNESS, env=env, capture_output=True, text=True)
+        if r.returncode != 0:
+            log(f"miri setup for {t} failed: {r.stderr[-800:]}")
+            ok = False
+    return ok
+
+
+def miri_run(pid, target_key, seed, nshards, timeout_s, extra=None):
+    """Run `elfmon run <pid> --tier miri` under Miri for a foreign target, sharded."""
+    target = MIRI_TARGETS[target_key]
+    env = base_env()
+    env["RUSTFLAGS"] = "--cfg elf_verif_hooks"
+    env["MIRIFLAGS"] = "-Zmiri-disable-isolation"
+    env["CARGO_TARGET_DIR"] = os.path.join(TARGET, "miri")
+    wd = workdir(f"{pid}-miri-{target_key}")
+    # build once (serially) so that the shards do not all wait on the build lock with a cold cache
+    b = subprocess.run(["cargo", "+nightly", "miri", "run", "--target", target, "--", "list"], cwd=HARNESS, env=env, capture_output=True, text=True, timeout=1800)
+    if b.returncode != 0:
+        return None, [f"miri build/run for {target} failed: {b.stderr[-1500:]}"]
+    procs = []
+    for i in range(nshards):
+        cmd = ["cargo", "+nightly", "miri", "run", "--target", target, "--", "run", pid, "--tier", "miri", "--seed", str(seed),
+               "--shard", f"{i}/{nshards}", "--out", "-"]
+        if extra:
+            cmd += extra
+        out = open(os.path.join(wd, f"shard{i}.out"), "w")
+        err = open(os.path.join(wd, f"shard{i}.err"), "w")
+        procs.append((i, subprocess.Popen(cmd, cwd=HARNESS, env=env, stdout=out, stderr=err), out, err))
+    reports, problems = [], []
+    deadline = time.time() + timeout_s
+    for i, p, out, err in procs:
+        try:
+            rc = p.wait(timeout=max(1, deadline - time.time()))
+        except subprocess.TimeoutExpired:
+            p.kill()
+            p.wait()
+            problems.append(f"miri shard {i} on {target} hit the {timeout_s}s watchdog (inconclusive)")
+            continue
+        finally:
+            out.close()
+            err.close()
+        txt = open(os.path.join(wd, f"shard{i}.out")).read()
+        m = re.search(r"@@REPORT@@ (\{.*\})", txt)
+        if rc != 0 or not m:
+            tail = open(os.path.join(wd, f"shard{i}.err")).read()[-1200:]
+            problems.append(f"miri shard {i} on {target} exited {rc}: {tail}")
+            continue
+        reports.append(json.loads(m.group(1)))
+    if not problems:
+        shutil.rmtree(wd, ignore_errors=True)
+    return reports, problems
+
+
+def _miri_phase(pid, seed, targets, nshards=16, timeout_s=3000):
+    res = {"violations": [], "inconclusive": [], "counters": {}, "maxes": {}, "samples": [], "evaluations": 0, "digests": set(), "coverage": {"targets": []}}
+    if not miri_setup(targets):
+        res["inconclusive"].append("miri sysroot setup failed")
+        return res
+    for t in targets:
+        reports, problems = miri_run(pid, t, seed, nshards, timeout_s)
+        if reports is None:
+            res["inconclusive"].extend(problems)
+            continue
+        m = merge_reports(reports)
+        p = _prefixed(m, f"miri-{t}")
+        for v in p["violations"]:
+            v["tier"] = "miri"
+            v["detail"] = f"[under Miri, target {MIRI_TARGETS[t]}] " + v["detail"]
+        res["violations"].extend(p["violations"])
+        res["inconclusive"].extend(p["inconclusive"] + problems)
+        res["evaluations"] += p["evaluations"]
+        res["digests"] |= p["digests"]
+        res["samples"].extend(p["samples"])
+        res["counters"].update(p["counters"])
+        res["maxes"].update(p["maxes"])
+        res["coverage"]["targets"].append({"target": MIRI_TARGETS[t], "shards": len(reports), "evaluations": m["evaluations"]})
+    return res
+
+
+def miri_c01(pid, tier, seed):
+    return _miri_phase("C01", seed, ["i686", "mips"])
+
+
+def miri_c04(pid, tier, seed):
+    return _miri_phase("C04", seed, ["s390x", "mips"], nshards=8)
+
+
+def miri_c16(pid, tier, seed):
+    return _miri_phase("C16", seed, ["i686"])
+
+
+# --------------------------------------------------------------------------- libFuzzer
+def fuzz_c01(pid, tier, seed):
+    import fuzzphase
+    return fuzzphase.run(pid, tier, seed)
+
+
+# --------------------------------------------------------------------------- setup
 def build_everything():
     ok = True
+    t0 = time.time()
     if build_main() is None:
         ok = False
+    if build_wrap() is None:
+        ok = False
+    feats = declared_features()
+    subsets = []
+    for r in range(len(feats) + 1):
+        for c in itertools.combinations(feats, r):
+            if set(c) != set(feats):
+                subsets.append(list(c))
+    with ThreadPoolExecutor(max_workers=8) as ex:
+        for s, b in ex.map(lambda s: (s, cargo_build("feat-" + ("_".join(s) or "none"), FLAGS_CHECKED, features=["elf_" + f for f in s])), subsets):
+            if b is None:
+                ok = False
+    log(f"harness variants built in {time.time() - t0:.0f}s")
+    # Miri sysroots (used by the thorough tier only); failure here is not fatal for setup
+    miri_setup(["i686", "mips", "s390x"])
     return 0 if ok else 2
